@@ -18,7 +18,7 @@ import (
 func init() {
 	register(Property{
 		ID:          "C01",
-		Explanation: "Decided statically on the file writer (anchor: the function of pkg/gengo that opens a file for writing) and the snippet writer: R1 sink provenance - the only transfer of bytes into the opened file is go/format.Node(f, fset, file) with file/fset being the result and FileSet of the single go/parser.ParseFile call, whose source is the bytes of the assembled buffer; the file is opened with O_TRUNC|O_CREATE (or os.Create), so no old tail survives; R2 must-pass-through - every path from ParseFile to format.Node passes mvdan.cc/gofumpt/format.File on the same fset/file with LangVersion derived from the module's GoVersion and ModulePath from the module's Path (of c.Package(\"\").Module()); R3 header shape - the first write into the source buffer is an Fprintf with a constant format which, with its verbs replaced by marker identifiers, parses to a file whose leading comment contains the generator-name operand and whose package clause is the operand originating from c.Package(\"\").Pkg().Name(); R4 verbatim append - the snippet writer writes every fragment of Frag unmodified with io.WriteString, skipping only nil/IsNil snippets; the source buffer receives header, imports (writeImports) and the body (io.Copy of the very buffer handed to the snippet writer) in this order and nothing else. R5 in the loop over the generators a non-empty file is handed to the writer on every path (the only way round the hand-over is the edge on which the file is known to be empty) and the writer call over the queue is unconditional; R6 the directory written to is the processed package's own (C13.R6). R7 the import printer writes the imports as one parenthesised declaration (no constant spells a lone `import <spec>`); R8 every generator of a package renders into a context and file of its own (C05.R2/R3). R9 the tree returned by ParseFile is handed to the formatters and the printer only (no store into it, no other callee, no replacement); R10 the body buffer of a file only grows (no Truncate/Reset/read, no replacement; handed only to the snippet writer's constructor, to writers as destination and to the file writer's io.Copy); R5 also: the emptiness test is made after the last rendering of the iteration (no dispatch or deferred callback follows it). R11 the module record gofumpt's options come from is what go list reported (C13.R9). NOT decided: that go/format and gofumpt are idempotent (fixed point) and that a rendered body parses (its failure path is C02) - properties of third-party code and run-time strings. Round 8: R12 = C09.R7 (a snippet is skipped only when it holds nothing: a blank Block is text); R4 also reads an import block that the writer prints itself (the statement holding `import (` is one step of the source order).",
+		Explanation: "Decided statically on the file writer (anchor: the function of pkg/gengo that opens a file for writing) and the snippet writer: R1 sink provenance - the only transfer of bytes into the opened file is go/format.Node(f, fset, file) with file/fset being the result and FileSet of the single go/parser.ParseFile call, whose source is the bytes of the assembled buffer; the file is opened with O_TRUNC|O_CREATE (or os.Create), so no old tail survives; R2 must-pass-through - every path from ParseFile to format.Node passes mvdan.cc/gofumpt/format.File on the same fset/file with LangVersion derived from the module's GoVersion and ModulePath from the module's Path (of c.Package(\"\").Module()); R3 header shape - the first write into the source buffer is an Fprintf with a constant format which, with its verbs replaced by marker identifiers, parses to a file whose leading comment contains the generator-name operand and whose package clause is the operand originating from c.Package(\"\").Pkg().Name(); R4 verbatim append - the snippet writer writes every fragment of Frag unmodified with io.WriteString, skipping only nil/IsNil snippets; the source buffer receives header, imports (writeImports) and the body (io.Copy of the very buffer handed to the snippet writer) in this order and nothing else. R5 in the loop over the generators a non-empty file is handed to the writer on every path (the only way round the hand-over is the edge on which the file is known to be empty) and the writer call over the queue is unconditional; R6 the directory written to is the processed package's own (C13.R6). R7 the import printer writes the imports as one parenthesised declaration (no constant spells a lone `import <spec>`); R8 every generator of a package renders into a context and file of its own (C05.R2/R3). R9 the tree returned by ParseFile is handed to the formatters and the printer only (no store into it, no other callee, no replacement); R10 the body buffer of a file only grows (no Truncate/Reset/read, no replacement; handed only to the snippet writer's constructor, to writers as destination and to the file writer's io.Copy); R5 also: the emptiness test is made after the last rendering of the iteration (no dispatch or deferred callback follows it). R11 the module record gofumpt's options come from is what go list reported (C13.R9). NOT decided: that go/format and gofumpt are idempotent (fixed point) and that a rendered body parses (its failure path is C02) - properties of third-party code and run-time strings. Round 8: R12 = C09.R7 (a snippet is skipped only when it holds nothing: a blank Block is text); R4 also reads an import block that the writer prints itself (the statement holding `import (` is one step of the source order). Round 9: R13 = C07.R1 (the output file is named after the generator's name as it is).",
 		Assumptions: append([]string{"go/format.Node prints canonical gofmt output for a parsed AST; gofumpt's format.File applies its rules in place (third-party, trusted)"}, commonAssumptions...),
 		Run:         runC01,
 	})
